@@ -102,6 +102,22 @@ func c02Gen(g *core.Gen) {
 			})
 		}
 	}
+	// protected files in sub-directories that share a base name with another protected file or with an unrelated file
+	// beside the index: neither look-alike may be touched when the nested file is damaged or missing
+	nestCfg := scen.P2Config{Sizes: []int{9, 6, 7}, Slice: 4, Blocks: 4, Class: "uniq", Names: []string{"readme.txt", "docs/readme.txt", "sub/notes.txt"}}
+	nestExtras := append(append([]string{}, c02Extras...), "/d/notes.txt", "/d/docs/notes.txt", "/d/sub/readme.txt", "/d/docs/docs/readme.txt")
+	nestMenu := append(scen.DataMenu(nestCfg.Sizes, nestCfg.Slice, nRecFiles(nestCfg.Blocks), false), scen.RecMenu(nRecFiles(nestCfg.Blocks))...)
+	for k := 0; k <= 2; k++ {
+		forCombos(len(nestMenu), k, func(ix []int) {
+			var ds []scen.Dmg
+			for _, i := range ix {
+				ds = append(ds, nestMenu[i])
+			}
+			for _, dc := range []bool{false, true} {
+				g.Emit(&c02Case{Kind: "p2", P2: &p2Case{Cfg: nestCfg, Dmg: ds, G: 1, DoubleCheck: dc, Extra: nestExtras}})
+			}
+		})
+	}
 	// a file above the 16 KiB hash boundary: damage beyond the first 16 KiB combined with bad recovery data
 	bigCfg := scen.P2Config{Sizes: []int{19000, 5000}, Slice: 1000, Blocks: 3, Class: "uniq", G: 2}
 	bigMenu := []scen.Dmg{{Op: "ovw", F: 0, At: 18}, {Op: "ovw", F: 0, At: 0}, {Op: "ovw", F: 1, At: 4}, {Op: "del", F: 0}, {Op: "del", F: 1}, {Op: "ins", F: 0, At: 17500, N: 1},
@@ -268,7 +284,7 @@ func init() {
 	core.Register(&core.Prop{
 		ID:    "C02",
 		Level: "model_checking",
-		Rule: "bounded-exhaustive archive states: PAR2 default sets with ALL combinations of <=3 operators (thorough: additionally all pairs, and for the default set all triples, over the FULL per-offset data menu plus the recovery-file operators) from {data damage menu} U {recovery file replaced by a well-formed file with wrong blocks, payload flip, truncation, emptied, foreign-set recovery file, deleted}, double-check on and off, unrelated files / sub-directory / look-alike names beside the set; " +
+		Rule: "bounded-exhaustive archive states (plus a PAR2 set whose protected files live in sub-directories and share base names with each other and with unrelated files beside the index, all combinations of <=2 operators): PAR2 default sets with ALL combinations of <=3 operators (thorough: additionally all pairs, and for the default set all triples, over the FULL per-offset data menu plus the recovery-file operators) from {data damage menu} U {recovery file replaced by a well-formed file with wrong blocks, payload flip, truncation, emptied, foreign-set recovery file, deleted}, double-check on and off, unrelated files / sub-directory / look-alike names beside the set; " +
 			"PAR1 full product of per-file damage {ok,deleted,changed,truncated,emptied,garbage} x per-volume {ok,deleted,corrupt,foreign,truncated} x double-check; Create on a size grid. " +
 			"Oracle from the recorder: every write during Repair targets a protected path with exactly the protected bytes and is listed in the result; every other directory entry is byte-identical afterwards; Verify performs no write; Create writes only set files and changes nothing else. non-trivial = Repair wrote or failed",
 		Assumptions: []string{"all filesystem access of par1/par2 goes through the fileIO seam (asserted by a source lint in this check)", "a path listed in the result but not written is outside the statement (counted, not alarmed)"},
